@@ -9,29 +9,7 @@
 From Verif Require Import lib.Base lib.Str lib.Utf8 model.Stream model.Body model.Chunked gen.Gen.
 From Verif Require Import model.MultipartRef model.Fields.
 
-(* ---- error mapping ---- *)
-
-(* class names as they appear in gen/Gen.v errors_map *)
-Definition cls_RequestError : list N :=
-  [82; 101; 113; 117; 101; 115; 116; 69; 114; 114; 111; 114]%N.
-Definition cls_BodySizeError : list N :=
-  [66; 111; 100; 121; 83; 105; 122; 101; 69; 114; 114; 111; 114]%N.
-Definition cls_BodyParsingError : list N :=
-  [66; 111; 100; 121; 80; 97; 114; 115; 105; 110; 103; 69; 114; 114; 111; 114]%N.
-
-Fixpoint emap_get (m : list (list N * (Z * list N))) (cls : list N) : option Z :=
-  match m with
-  | [] => None
-  | (k, (code, _)) :: r => if str_eqb k cls then Some code else emap_get r cls
-  end.
-
-(* request.py:39   for err_cls in (err.__class__, except_class): out = errors_map.get(err_cls) ...
-   Some code = the mapped HTTPError is raised; None = the original exception escapes *)
-Definition raise_status (m : list (list N * (Z * list N))) (cls except_cls : list N) : option Z :=
-  match emap_get m cls with
-  | Some c => Some c
-  | None => emap_get m except_cls
-  end.
+(* the error mapping (class names, emap_get, raise_status: BaseRequest._raise) lives in model/Chunked.v *)
 
 (* ---- Request._body ---- *)
 
